@@ -4,6 +4,7 @@ let runners : (string * (string -> string list -> string list list -> (string ->
   ("C09", Drv_c09.run);
   ("C01", Drv_c01.run);
   ("C08", Drv_c01.run);
+  ("C20", Drv_c20.run);
 ]
 
 let () =
